@@ -64,8 +64,14 @@ in the generated-facts block; the translator never guesses):
               * memcpy(p, &x, sizeof x) between two scalar objects of the same
                 type is the assignment *p = x,
               * __builtin_{s,u}{add,sub,mul}{,l,ll}_overflow as gcc documents them
-  rejected    goto, labels, assignment of a pointer to another object, arrays,
-              structs, unions, floating point, non-const globals, static locals,
+  structs     a struct all of whose fields are integers: a local `S x;` (fields
+              without a value), `x.f`, `p->f`, `&x` passed to a function, and
+              `S *p` parameters, where p MAY BE NULL: the parameter is an
+              `option` of the tuple of its fields (each an `option Z`), the body
+              is rendered once for p == NULL and once for p != NULL, `if (p)` is
+              then known, and `p->f` on the null pointer is CUB UB_null_deref
+  rejected    goto, labels, assignment of a pointer to another object, other
+              arrays and structs, unions, floating point, non-const globals, static locals,
               function pointers, varargs, volatile, pointer comparison, calls to
               anything outside the file, recursion
 
@@ -164,6 +170,8 @@ class Env:
 
     def copy(self):
         return Env(self.vars, self.cells, self.bufs)
+    # a struct object is the list of the cells of its fields: vars[id] = ('struct', name, [cell keys]) for a
+    # local struct, ('structptr', name, [cell keys] or None) for a pointer parameter (None = the null pointer)
 
 
 class Ctx:
@@ -200,6 +208,7 @@ class Translator:
         self.buf_arr = {}     # bufkey -> True for a local byte array (elements may hold no value)
         self.buf_z = {}       # bufkey -> element type of an array of scalars (`uint64_t *` parameter that is indexed)
         self.imports = {}     # function of another translated file -> (module, signature)
+        self.structs = {}     # struct name -> [(field, ity)]
         self.rty = "unit"
         self.probe_typedefs()
 
@@ -295,7 +304,24 @@ class Translator:
         s = TYPEDEFS.get(s, s)
         if s in ITY:
             return ("int", ITY[s])
+        if re.match(r"^(struct\s+)?\w+$", s) and self.struct(re.sub(r"^struct\s+", "", s)):
+            return ("struct", re.sub(r"^struct\s+", "", s))
         raise Untranslatable("type %r" % s)
+
+    def struct(self, name):
+        """fields of `struct name` / typedef name, all of integer type; None if there is no such struct"""
+        if name not in self.structs:
+            self.structs[name] = None
+            recs = [o for o in self.dump(name) if o.get("kind") == "RecordDecl" and o.get("name") == name
+                    and o.get("tagUsed") == "struct" and o.get("completeDefinition")]
+            if len(recs) == 1:
+                try:
+                    fs = [(c["name"], self.ty(c["type"])) for c in recs[0].get("inner", []) if c["kind"] == "FieldDecl"]
+                    if fs and all(t[0] == "int" for (_, t) in fs) and not any(c.get("isBitfield") for c in recs[0]["inner"]):
+                        self.structs[name] = [(f, t[1]) for (f, t) in fs]
+                except Untranslatable:
+                    pass
+        return self.structs[name]
 
     def ity(self, node):
         t = self.ty(node["type"])
@@ -427,6 +453,8 @@ class Translator:
             self.ity(n)
             return self.cell_read(env, v[1])
         p = self.lvalue_ptr(n, env)
+        if p[0] == "null":
+            return "(CUB UB_null_deref)"
         if p[0] == "bytes":
             if p[1] in self.buf_z:
                 if self.ity(n) != self.buf_z[p[1]]:
@@ -458,6 +486,17 @@ class Translator:
             v = self.var(n, env)
             if v[0] == "cell":
                 return ("cellptr", v[1])
+        if k == "MemberExpr":
+            b = self.unparen(n["inner"][0])
+            if n.get("isArrow") and b["kind"] == "ImplicitCastExpr" and b["castKind"] == "LValueToRValue":
+                b = self.unparen(b["inner"][0])
+            if b["kind"] == "DeclRefExpr":
+                v = self.var(b, env)
+                if v[0] in ("struct", "structptr") and bool(n.get("isArrow")) == (v[0] == "structptr"):
+                    if v[2] is None:
+                        return ("null",)
+                    names = [f for (f, _) in self.struct(v[1])]
+                    return ("cellptr", v[2][names.index(n["name"])])
         raise Untranslatable("lvalue %s" % k)
 
     def padd(self, p, op, i):
@@ -481,6 +520,8 @@ class Translator:
                 sub = sub["inner"][0]
             if ck == "LValueToRValue" and sub["kind"] == "DeclRefExpr":
                 v = self.var(sub, env)
+                if v[0] == "structptr":
+                    return v
                 if v[0] == "cell":
                     raise Untranslatable("integer used as a pointer")
                 if v[0] == "ptrvar":
@@ -505,6 +546,10 @@ class Translator:
             self.ity(b)
             return self.padd(self.ptr(a, env), "c_padd" if n["opcode"] == "+" else "c_psub", self.expr(b, env))
         if k == "UnaryOperator" and n["opcode"] == "&":
+            b = self.unparen(n["inner"][0])
+            if b["kind"] == "DeclRefExpr" and b["referencedDecl"]["id"] in env.vars and env.vars[b["referencedDecl"]["id"]][0] == "struct":
+                v = env.vars[b["referencedDecl"]["id"]]
+                return ("structptr", v[1], v[2])
             return self.lvalue_ptr(n["inner"][0], env)
         raise Untranslatable("pointer expression %s" % k)
 
@@ -676,8 +721,18 @@ class Translator:
                 v, e2, "(%s %s (COk %s))" % ("c_padd" if op == "+" else "c_psub", self.cell_read(e2, v[2]), r),
                 lambda e3: k(e3, None)), ctx, "n")
         t, cl, cr = self.ity(lhs), self.ty(n["computeLHSType"]), self.ty(n["computeResultType"])
-        if cl[0] != "int" or cr != cl or self.effectful(rhs):
+        if cl[0] != "int" or cr != cl:
             raise Untranslatable("compound assignment %s of this shape" % n["opcode"])
+        if self.effectful(rhs):
+            # x op= f(...): x must be a plain variable that the right operand does not mention (so the
+            # order in which the two sides are evaluated cannot matter)
+            x = self.unparen(lhs)
+            if x["kind"] != "DeclRefExpr" or self.refers(rhs, x["referencedDecl"]["id"]) or op not in ARITH \
+                    or self.ity(rhs) != cl[1]:
+                raise Untranslatable("compound assignment %s with effects on the right" % n["opcode"])
+            return self.rhs(rhs, env, lambda e2, r: self.store(
+                lhs, "(c_cast %s %s (%s %s (c_cast %s %s %s) (COk %s)))" % (
+                    cl[1], t, ARITH[op], cl[1], t, cl[1], self.read(lhs, e2), r), e2, k), ctx, "n")
         a = "(c_cast %s %s %s)" % (t, cl[1], self.read(lhs, env))
         if op in ("<<", ">>"):
             self.ity(rhs)
@@ -692,6 +747,8 @@ class Translator:
         """lhs := value of term (already of lhs's type); then k(env', name of the value)"""
         lhs = self.unparen(lhs)
         p = self.lvalue_ptr(lhs, env)
+        if p[0] == "null":
+            return "CUB UB_null_deref"
         nm = self.fresh("v_", lhs["referencedDecl"]["name"] if lhs["kind"] == "DeclRefExpr" else "a")
         if p[0] == "bytes":
             if self.ity(lhs) != self.elem(p[1]) or self.buf_const.get(p[1]):
@@ -756,6 +813,8 @@ class Translator:
                 return self.bind(m, "(%s %s %s %s)" % (self.st(p[1]), e2.bufs[p[1]], p[2], self.expr(rhs, e2)), k(e3, None))
             return self.rhs(b, env, at, ctx, "i")
         p = self.lvalue_ptr(lhs, env)
+        if p[0] == "null":
+            return "CUB UB_null_deref"
         if p[0] == "bytes":
             if self.ity(lhs) != self.elem(p[1]) or self.effectful(rhs) or self.buf_const.get(p[1]):
                 raise Untranslatable("store through a byte pointer of a non-byte / of a value with effects / to const")
@@ -765,7 +824,7 @@ class Translator:
             return self.bind(m, "(%s %s %s %s)" % (self.st(p[1]), env.bufs[p[1]], p[2] or "(COk 0)", self.expr(rhs, env)), k(e, None))
         if env.cells[p[1]][0] != self.ity(lhs):
             raise Untranslatable("object assigned through a pointer of another type")
-        hint = lhs["referencedDecl"]["name"] if lhs["kind"] == "DeclRefExpr" else "a"
+        hint = lhs["referencedDecl"]["name"] if lhs["kind"] == "DeclRefExpr" else lhs.get("name", "a")
         return self.rhs(rhs, env, lambda e2, r: k(self.set_cell(e2, p[1], r), r), ctx, hint)
 
     # ------------------------------------------------------------ statements (continuation-passing)
@@ -782,6 +841,11 @@ class Translator:
 
     def cond(self, c, env, k, ctx):
         """evaluate the controlling expression c, then k(env', term of its value)"""
+        if self.is_ptr(c):                   # if (p): known when the function was entered (see function1)
+            v = self.ptr(c, env)
+            if v[0] != "structptr":
+                raise Untranslatable("pointer used as a condition")
+            return k(env, "(COk %d)" % (0 if v[2] is None else 1))
         self.ity(c)
         if self.effectful(c):
             return self.rhs(c, env, lambda e2, r: k(e2, "(COk %s)" % r), ctx, "c")
@@ -841,6 +905,16 @@ class Translator:
             self.buf_arr[d["id"]] = True
             return self.bind(nm, "(COk (c_anew %s))" % arr.group(2), self.decls(ds[1:], e, k, ctx))
         t = self.ty(d["type"])
+        if t[0] == "struct":                               # a local struct: one cell per field, none holding a value
+            if "init" in d:
+                raise Untranslatable("initialised struct %s" % d["name"])
+            keys = []
+            for (f, ft) in self.struct(t[1]):
+                key = "%s.%s" % (d["id"], f)
+                e.cells[key] = (ft, ("unset",))
+                keys.append(key)
+            e.vars[d["id"]] = ("struct", t[1], keys)
+            return self.decls(ds[1:], e, k, ctx)
         if t[0] == "ptr" and t[2] == ("int", "TU8"):       # byte pointer local = an offset into the object of a parameter
             if d.get("init") != "c":
                 raise Untranslatable("pointer %s declared without initialiser" % d["name"])
@@ -920,6 +994,9 @@ class Translator:
             r = n.get("referencedDecl")
             if n.get("kind") == "DeclRefExpr" and r and r.get("id") in env.vars:
                 v = env.vars[r["id"]]
+                if v[0] in ("struct", "structptr") and v[2]:
+                    for key in v[2]:
+                        add(cells, key)
                 if v[0] in ("cell", "cellptr"):
                     add(cells, v[1])
                 elif v[0] == "ptrvar":
@@ -1116,6 +1193,10 @@ class Translator:
         return out
 
     def check_ptr(self, v, t, env):
+        if v[0] == "structptr" or t[2][0] == "struct":
+            if v[0] != "structptr" or t[2] != ("struct", v[1]):
+                raise Untranslatable("pointer to a struct passed as / where another pointer is expected")
+            return
         if v[0] == "bytes":
             if t[2] != ("int", self.elem(v[1])) or self.buf_arr.get(v[1]):
                 raise Untranslatable("byte pointer passed as a pointer to another type / local array passed to a function")
@@ -1135,7 +1216,7 @@ class Translator:
             sig = info["sig"]
         if len(sig["params"]) != len(args):
             raise Untranslatable("arity of %s" % name)
-        binds, actual, outs, seen, splices, e = [], [], [], set(), [], env.copy()
+        binds, actual, outs, seen, splices, structs_back, e = [], [], [], set(), [], [], env.copy()
         if sig["fuel"]:
             self.fuel = True
             actual.append("v_fuel")
@@ -1148,6 +1229,26 @@ class Translator:
                 actual.append(nm)
                 continue
             v = self.ptr(a, env)
+            if pk == "struct":
+                self.check_ptr(v, ("ptr", pconst, ("struct", pt)), env)
+                if v[2] is None:
+                    actual.append("None")
+                    if not pconst:
+                        outs.append("_")
+                    continue
+                if tuple(v[2]) in seen:
+                    raise Untranslatable("two pointer arguments to the same object")
+                seen.add(tuple(v[2]))
+                fs = []
+                for key in v[2]:
+                    st = env.cells[key][1]
+                    fs.append("None" if st[0] == "unset" else "Some %s" % st[1] if st[0] == "val" else st[1])
+                actual.append("(Some (%s))" % ", ".join(fs))
+                if not pconst:
+                    back = self.fresh("s_", "")
+                    outs.append(back)
+                    structs_back.append((v[2], back))
+                continue
             self.check_ptr(v, ("ptr", pconst, ("int", pt)), env)
             if (pk == "cell") != (v[0] == "cellptr"):
                 raise Untranslatable("array passed where one object is expected, or the reverse")
@@ -1185,7 +1286,15 @@ class Translator:
         pat = "_" if not outs else outs[0] if len(outs) == 1 else "'(%s)" % ", ".join(outs)
         for (key, off, back) in splices:
             e.bufs[key] = self.fresh("m_", "")
+        pats = []
+        for (keys, back) in structs_back:          # a callee given a struct hands a struct back
+            ns = [self.fresh("p_", "f") for _ in keys]
+            for key, nm in zip(keys, ns):
+                e.cells[key] = (env.cells[key][0], ("opt", nm))
+            pats.append((back, ns))
         rest = k(e, r)
+        for (back, ns) in reversed(pats):
+            rest = "match %s with\n| Some (%s) =>\n%s\n| None => CUB UB_null_deref\nend" % (back, ", ".join(ns), indent(rest))
         for (key, off, back) in reversed(splices):
             rest = self.bind(e.bufs[key], "(c_unview %s (COk %s) %s)" % (env.bufs[key], off, back), rest)
         out = self.bind(pat, "src_%s %s" % (name, " ".join(actual)), rest)
@@ -1260,11 +1369,33 @@ class Translator:
                 for c in n["inner"]:
                     if self.is_ptr_safe(c):
                         base(c)
+            if k == "CallExpr":                      # passed on to a parameter that the callee uses as an array
+                f = n["inner"][0]
+                while f.get("kind") in ("ImplicitCastExpr", "ParenExpr"):
+                    f = f["inner"][0]
+                name = f.get("referencedDecl", {}).get("name")
+                sig = None
+                if name in self.imports:
+                    sig = self.imports[name][1]
+                elif name and name != d.get("name") and name not in self.active[:-1] and self.ast_safe(name) is not None \
+                        and self.ast_safe(name).get("storageClass") != "static":
+                    self.function(name)
+                    sig = self.done[name].get("sig")
+                if sig:
+                    for (pk, _, _, _), a in zip(sig["params"], n["inner"][1:]):
+                        if pk == "zarr":
+                            base(a)
             for c in n.get("inner", []):
                 if isinstance(c, dict):
                     walk(c)
         walk(d)
         return out
+
+    def ast_safe(self, name):
+        try:
+            return self.ast(name)
+        except (Untranslatable, RuntimeError):
+            return None
 
     def is_ptr_safe(self, n):
         try:
@@ -1279,7 +1410,7 @@ class Translator:
         indexed = self.indexed(d)                       # `T *` parameters used as arrays
         if rt[0] == "ptr":
             raise Untranslatable("pointer return type")
-        env, coq_params, sig_params, outs = Env(), [], [], []
+        env, coq_params, sig_params, outs, nullable = Env(), [], [], [], []
         for p in ps:
             t = self.ty(p["type"])
             if t[0] == "int":
@@ -1320,9 +1451,26 @@ class Translator:
                 sig_params.append(("cell", t[2][1], t[1], p["name"]))
                 if not t[1]:
                     outs.append(("cell", key))
+            elif t[0] == "ptr" and t[2][0] == "struct":
+                nm = "s_" + p["name"]
+                fs = self.struct(t[2][1])
+                keys = ["%s.%s" % (p["id"], f) for (f, _) in fs]
+                for key, (f, ft) in zip(keys, fs):
+                    env.cells[key] = (ft, ("opt", "p_%s_%s" % (p["name"], f)))
+                env.vars[p["id"]] = ("structptr", t[2][1], keys)
+                coq_params.append("(%s : option (%s))" % (nm, " * ".join("option Z" for _ in fs)))
+                sig_params.append(("struct", t[2][1], t[1], p["name"]))
+                nullable.append((p["id"], nm, ["p_%s_%s" % (p["name"], f) for (f, _) in fs]))
+                if not t[1]:
+                    outs.append(("struct", p["id"]))
             else:
                 raise Untranslatable("parameter %s of type %s" % (p["name"], p["type"]["qualType"]))
-        comps = (["Z"] if rt != ("void",) else []) + [{"bytes": "list N", "zarr": "list Z"}.get(o[0], "option Z") for o in outs]
+        self.nullable = nullable
+        def comp(o):
+            if o[0] == "struct":
+                return "option (%s)" % " * ".join("option Z" for _ in env.vars[o[1]][2])
+            return {"bytes": "list N", "zarr": "list Z"}.get(o[0], "option Z")
+        comps = (["Z"] if rt != ("void",) else []) + [comp(o) for o in outs]
         return env, coq_params, sig_params, outs, rt, " * ".join(comps) if comps else "unit"
 
     def function1(self, fn, d):
@@ -1336,6 +1484,16 @@ class Translator:
             for (kind, key) in outs:
                 if kind in ("bytes", "zarr"):
                     xs.append(e.bufs[key])
+                elif kind == "struct":
+                    v = e.vars[key]
+                    if v[2] is None:
+                        xs.append("None")
+                    else:
+                        fs = []
+                        for ck in v[2]:
+                            st = e.cells[ck][1]
+                            fs.append("None" if st[0] == "unset" else "Some %s" % st[1] if st[0] == "val" else st[1])
+                        xs.append("(Some (%s))" % ", ".join(fs))
                 else:
                     st = e.cells[key][1]
                     xs.append("None" if st[0] == "unset" else "Some %s" % st[1] if st[0] == "val" else st[1])
@@ -1347,7 +1505,17 @@ class Translator:
         def fall(e):
             return result(e, None) if rt == ("void",) else "CUB UB_no_return"
         body = [c for c in d["inner"] if c["kind"] == "CompoundStmt"][0]
-        code = self.stmt(body, env, fall, Ctx(result, None, None, (fn,), value))
+
+        def entry(e, todo):
+            """a struct pointer parameter may be NULL: the body is rendered once for each case"""
+            if not todo:
+                return self.stmt(body, e, fall, Ctx(result, None, None, (fn,), value))
+            (pid, nm, fields), rest = todo[0], todo[1:]
+            e_null = e.copy()
+            e_null.vars[pid] = ("structptr", e.vars[pid][1], None)
+            return "match %s with\n| Some (%s) =>\n%s\n| None =>\n%s\nend" % (
+                nm, ", ".join(fields), indent(entry(e, rest)), indent(entry(e_null, rest)))
+        code = entry(env, self.nullable)
         if self.fuel:
             coq_params.insert(0, "(v_fuel : nat)")
         head = "Definition src_%s %s : cres (%s) :=" % (fn, " ".join(coq_params), rty)
@@ -1473,7 +1641,8 @@ uint8_t q_varintChained_putVarint32(uint8_t *A, uint32_t B) { return varintChain
 
 
 RLE_FUNCTIONS = ["varintRLEDecodeRun", "varintRLEDecode", "varintRLEDecodeWithHeader", "varintRLEGetAt",
-                 "varintRLEGetCount", "varintRLEGetRunCount"]
+                 "varintRLEGetCount", "varintRLEGetRunCount", "varintRLEAnalyze", "varintRLESize",
+                 "varintRLEIsBeneficial", "varintRLEEncode", "varintRLEEncodeWithHeader"]
 
 
 def regenerate(repo, outdir):
